@@ -24,6 +24,8 @@ type VerifQueue struct {
 	q     *queue
 	peers map[string]*peerConnection
 	reqs  map[string]*fetchRequest // last request handed out per peer and kind ("b:"/"r:" + id)
+
+	procCh chan []*types.Header // headerProcCh of DeliverHeaders
 }
 
 func VerifNewQueue(mode SyncMode, offset uint64, rule func(*big.Int) params.HeaderVersion) *VerifQueue {
@@ -114,8 +116,10 @@ func (v *VerifQueue) CancelReceipts(id string) {
 }
 
 // ExpireBodies / ExpireReceipts with the given timeout; returns the number of peers expired.
-func (v *VerifQueue) ExpireBodies(timeout time.Duration) int   { return len(v.q.ExpireBodies(timeout)) }
-func (v *VerifQueue) ExpireReceipts(timeout time.Duration) int { return len(v.q.ExpireReceipts(timeout)) }
+func (v *VerifQueue) ExpireBodies(timeout time.Duration) int { return len(v.q.ExpireBodies(timeout)) }
+func (v *VerifQueue) ExpireReceipts(timeout time.Duration) int {
+	return len(v.q.ExpireReceipts(timeout))
+}
 
 func (v *VerifQueue) PendingBlocks() int   { return v.q.PendingBlocks() }
 func (v *VerifQueue) PendingReceipts() int { return v.q.PendingReceipts() }
@@ -127,3 +131,37 @@ func (v *VerifQueue) Completed() int {
 	defer v.q.lock.Unlock()
 	return v.q.countProcessableItems()
 }
+
+// ---- skeleton header fill (C17 round 5)
+
+// ScheduleSkeleton is queue.ScheduleSkeleton: skeleton[i] is the header expected at from+(i+1)*MaxHeaderFetch-1.
+func (v *VerifQueue) ScheduleSkeleton(from uint64, skeleton []*types.Header) {
+	v.q.ScheduleSkeleton(from, skeleton)
+	v.procCh = make(chan []*types.Header, 64)
+}
+
+// ReserveHeaders is queue.ReserveHeaders: the origin of the batch the peer is asked to fill (0: nothing).
+func (v *VerifQueue) ReserveHeaders(id string) uint64 {
+	r := v.q.ReserveHeaders(v.peer(id), MaxHeaderFetch)
+	if r == nil {
+		return 0
+	}
+	return r.From
+}
+
+// DeliverHeaders is queue.DeliverHeaders; class: ok | nofetch | rejected | err.
+func (v *VerifQueue) DeliverHeaders(id string, headers []*types.Header) (int, string) {
+	n, err := v.q.DeliverHeaders(id, headers, v.procCh)
+	switch {
+	case err == nil:
+		return n, "ok"
+	case err == errNoFetchesPending:
+		return n, "nofetch"
+	case err.Error() == "delivery not accepted":
+		return n, "rejected"
+	}
+	return n, "err"
+}
+
+// ExpireHeaders / CancelHeaders for the stale / cancelled request cases.
+func (v *VerifQueue) ExpireHeaders(timeout time.Duration) int { return len(v.q.ExpireHeaders(timeout)) }
